@@ -221,6 +221,8 @@ class Engine:
 
     # ------------------------------------------------------------ expressions
     def ev(self, node, st):
+        from . import models
+        models._CUR[0] = st
         m = getattr(self, 'ev_' + type(node).__name__, None)
         if m is None:
             raise Unsupported("expression %s at line %s" % (type(node).__name__, getattr(node, 'lineno', '?')))
